@@ -35,6 +35,8 @@ type ctx struct {
 	vimg  map[uint64][]uint32
 	snap  snapshot
 	ldsB  []byte
+	vbuf  []uint32  // reusable VGPR buffer of the model state
+	clean [2]uint64 // VSeed whose pure image a backing's VGPR file is known to hold (0 = unknown)
 }
 
 func newCtx(withTiming bool) *ctx {
@@ -51,6 +53,7 @@ func newCtx(withTiming bool) *ctx {
 		c.backs[backTiming] = newTimingBacking()
 	}
 	c.ldsB = make([]byte, 65536+2*ldsPad)
+	c.vbuf = make([]uint32, isaspec.NumLanes*isaspec.NumVGPR)
 	return c
 }
 
@@ -79,8 +82,35 @@ func (x *ctx) vimage(seed uint64) []uint32 {
 
 // build constructs the pre-state of a case.
 func (x *ctx) build(c *Case) *isaspec.State {
-	st := isaspec.NewState(c.LDSSize, c.BgSeed^0x4d454d)
-	copy(st.VGPR, x.vimage(c.VSeed))
+	return x.buildInto(c, make([]uint32, isaspec.NumLanes*isaspec.NumVGPR))
+}
+
+// pureImage reports whether the case's VGPR file is exactly the background image.
+func pureImage(c *Case) bool {
+	for _, s := range c.Sets {
+		if s.Kind == "v" {
+			return false
+		}
+	}
+	return true
+}
+
+func scalarFormat(f gcnasm.Format) bool {
+	switch f {
+	case gcnasm.SOP2, gcnasm.SOPK, gcnasm.SOP1, gcnasm.SOPC, gcnasm.SOPP, gcnasm.SMEM:
+		return true
+	}
+	return false
+}
+
+func (x *ctx) buildInto(c *Case, vbuf []uint32) *isaspec.State {
+	st := &isaspec.State{LDS: make([]byte, c.LDSSize), Mem: isaspec.NewMemory(c.BgSeed ^ 0x4d454d)}
+	if vbuf == nil {
+		st.VGPR = x.vimage(c.VSeed) // scalar instruction on a pure image: shared, never written
+	} else {
+		st.VGPR = vbuf
+		copy(st.VGPR, x.vimage(c.VSeed))
+	}
 	for i := range st.SGPR {
 		st.SGPR[i] = uint32(mixu(c.BgSeed + uint64(i)*0x632be59bd9b4e019))
 	}
@@ -348,29 +378,46 @@ func (x *ctx) run(j *job, c *Case, wantDigest bool) (res result) {
 	}
 	res.decLen = inst.ByteSize
 	inst.PC = c.PC
+	fn := j.format.String()
+	if got := inst.FormatName; got != fn && !(strings.HasPrefix(got, "vop3") && strings.HasPrefix(fn, "vop3")) || int(inst.Opcode) != j.opcode {
+		// e.g. SOP2 opcode numbers 96..127 are the SOPK/SOP1/SOPC/SOPP encodings
+		return result{status: stNotDecoded, msg: fmt.Sprintf("encoding decodes as %s opcode %d", inst.FormatName, inst.Opcode)}
+	}
 
-	pre := x.build(c)
+	// ---- state: built once; the backing and the LDS buffer are loaded from it, then the
+	// reference transforms it in place into the expected post-state
+	scalarPure := scalarFormat(j.format) && pureImage(c)
+	var model *isaspec.State
+	if scalarPure {
+		model = x.buildInto(c, nil)
+	} else {
+		model = x.buildInto(c, x.vbuf)
+	}
+	preEXEC, prePC := model.EXEC, model.PC
+	bi := c.Backing
+	back := x.backs[bi]
+	if back == nil {
+		bi, back = backEmu, x.backs[backEmu]
+	}
+	withV := !(scalarPure && x.clean[bi] == c.VSeed && c.VSeed != 0)
+	back.load(model, withV)
+	x.clean[bi] = 0
+	back.setInst(inst)
+	back.setPC(prePC + uint64(inst.ByteSize)) // emu.ComputeUnit.runWfUntilBarrier: wf.SetPC(wf.PC() + inst.ByteSize) before executeInst
+	realMem := isaspec.NewMemory(model.Mem.Seed)
+	x.stor[arch].mem = realMem
+	nLDS := len(model.LDS)
+	for i := 0; i < ldsPad; i++ {
+		x.ldsB[i] = 0xa5
+		x.ldsB[ldsPad+nLDS+i] = 0xa5
+	}
+	lds := x.ldsB[ldsPad : ldsPad+nLDS : ldsPad+nLDS]
+	copy(lds, model.LDS)
 	// ---- reference
-	model := pre.Clone()
-	model.PC = pre.PC + uint64(len(code))
+	model.PC = prePC + uint64(len(code))
 	out := isaspec.Exec(&d, model)
 	res.cite = out.Cite
 	// ---- implementation
-	back := x.backs[c.Backing]
-	if back == nil {
-		back = x.backs[backEmu]
-	}
-	back.load(pre)
-	back.setInst(inst)
-	back.setPC(pre.PC + uint64(inst.ByteSize)) // emu.ComputeUnit.runWfUntilBarrier: wf.SetPC(wf.PC() + inst.ByteSize) before executeInst
-	realMem := isaspec.NewMemory(pre.Mem.Seed)
-	x.stor[arch].mem = realMem
-	for i := 0; i < ldsPad; i++ {
-		x.ldsB[i] = 0xa5
-		x.ldsB[ldsPad+len(pre.LDS)+i] = 0xa5
-	}
-	lds := x.ldsB[ldsPad : ldsPad+len(pre.LDS) : ldsPad+len(pre.LDS)]
-	copy(lds, pre.LDS)
 	x.alu[arch].SetLDS(lds)
 	panicked := false
 	func() {
@@ -401,6 +448,9 @@ func (x *ctx) run(j *job, c *Case, wantDigest bool) (res result) {
 	vEqual := back.vgprEqual(model.VGPR)
 	back.read(&x.snap, !vEqual)
 	s := &x.snap
+	if vEqual && scalarPure {
+		x.clean[bi] = c.VSeed
+	}
 	h := sha256.New()
 	var tmp [8]byte
 	put := func(v uint64) { binary.LittleEndian.PutUint64(tmp[:], v); h.Write(tmp[:]) }
@@ -413,11 +463,18 @@ func (x *ctx) run(j *job, c *Case, wantDigest bool) (res result) {
 	put(uint64(s.m0))
 	put(s.pc)
 	if vEqual {
-		h.Write(asBytes(model.VGPR))
+		// VGPR file equals the expected one: it is determined by the destination cells
+		for _, cell := range di.list {
+			if cell >= isaspec.CellVGPR0 {
+				put(uint64(model.VGPR[cell-isaspec.CellVGPR0]))
+			}
+		}
 	} else {
 		h.Write(asBytes(s.vgpr))
 	}
-	h.Write(lds)
+	if j.format == gcnasm.DS {
+		h.Write(lds)
+	}
 	for _, a := range realMem.WrittenAddrs() {
 		put(a)
 		h.Write([]byte{realMem.W[a]})
@@ -444,7 +501,7 @@ func (x *ctx) run(j *job, c *Case, wantDigest bool) (res result) {
 		res.digest["SCC"] = []byte{byte(s.scc)}
 		res.digest["VCC"] = binary.LittleEndian.AppendUint64(nil, s.vcc)
 		res.digest["EXEC"] = binary.LittleEndian.AppendUint64(nil, s.exec)
-		res.digest["PC"] = binary.LittleEndian.AppendUint64(nil, s.pc-pre.PC)
+		res.digest["PC"] = binary.LittleEndian.AppendUint64(nil, s.pc-prePC)
 		res.digest["M0"] = binary.LittleEndian.AppendUint32(nil, s.m0)
 		if j.format == gcnasm.DS {
 			hh := sha256.Sum256(lds)
@@ -506,7 +563,7 @@ func (x *ctx) run(j *job, c *Case, wantDigest bool) (res result) {
 			field = "D"
 			if cell >= isaspec.CellVGPR0 {
 				ln := (cell - isaspec.CellVGPR0) / isaspec.NumVGPR
-				if pre.EXEC>>uint(ln)&1 == 0 && j.format != gcnasm.SOP2 {
+				if preEXEC>>uint(ln)&1 == 0 {
 					field = "D-inactive-lane"
 				}
 			}
@@ -533,7 +590,7 @@ func (x *ctx) run(j *job, c *Case, wantDigest bool) (res result) {
 	checkCell(isaspec.CellM0, s.m0, model.M0, 0, 0)
 	if s.pc != model.PC {
 		if l, ok := out.Loose[isaspec.CellPCLo]; !ok || l.Mask != 0xffffffff {
-			addM("PC", "pc", fmt.Sprintf("0x%x (pc_before%+d)", s.pc, int64(s.pc-pre.PC)), fmt.Sprintf("0x%x (pc_before%+d)", model.PC, int64(model.PC-pre.PC)), "")
+			addM("PC", "pc", fmt.Sprintf("0x%x (pc_before%+d)", s.pc, int64(s.pc-prePC)), fmt.Sprintf("0x%x (pc_before%+d)", model.PC, int64(model.PC-prePC)), "")
 		}
 	}
 	if !vEqual {
@@ -560,7 +617,7 @@ func (x *ctx) run(j *job, c *Case, wantDigest bool) (res result) {
 		}
 	}
 	for i := 0; i < ldsPad; i++ {
-		if x.ldsB[i] != 0xa5 || x.ldsB[ldsPad+len(pre.LDS)+i] != 0xa5 {
+		if x.ldsB[i] != 0xa5 || x.ldsB[ldsPad+nLDS+i] != 0xa5 {
 			addM("LDS", "canary", "overwritten", "intact", "write outside the LDS allocation")
 			break
 		}
